@@ -92,7 +92,7 @@ def runner2(scenario, prof, seed, trace=None, then_generate=False, props=()):
 profiles.profile("dryrun_twin", mode="hpc", fault_free=True, kind="world", gen=gen_dry, runner=runner2, max_jobs=6,
                  user_cmds=False, recovery=False)
 profiles.PROFILE_PROPS["dryrun_twin"] = ["C07"]
-profiles.CHECKS["C07"]["profiles"] = [("clean_hpc_small", 0.45), ("clean_hpc", 0.3), ("dryrun_twin", 0.25)]
+profiles.CHECKS["C07"]["profiles"] = [("clean_hpc_small", 0.4), ("clean_hpc", 0.25), ("dryrun_twin", 0.2), ("resubmit_groups", 0.15)]
 profiles.RULES["C07"] += ("; dry-run twin: the login round of a drawn scenario is executed with dry_run false and true, the batch "
                           "configs written must be identical job-for-job and the dry-run world must never see sbatch, a scheduler job "
                           "or a launch")
@@ -111,8 +111,8 @@ def gen_foreign_rounds(ch, prof):
     n = len(sc["jobs"])
     sc["env"]["p_stall"] = 0.0
     sc["env"]["op_lat"] = g.pick([0.0, 0.0, 0.02])
-    sc["env"]["p_preempt"] = g.pick([0.1, 0.3])
-    sc["env"]["preempt_max"] = g.pick([1.0, 10.0, 10.0])
+    sc["env"]["p_preempt"] = g.pick([0.1, 0.3, 0.5])
+    sc["env"]["preempt_max"] = g.pick([1.0, 10.0, 60.0])
     sc["env"]["lat"] = dict(sc["env"].get("lat") or {}, squeue=g.pick([0.0, 0.0, 3.0, 30.0, 120.0]))
     mn = g.pick([None, 2, 3, 4])
     for grp in sc["groups"]:
@@ -138,9 +138,14 @@ def gen_foreign_rounds(ch, prof):
             if g.flip(0.7):
                 j["dur"] = d
     sc["user"] = user
+    if g.flip(0.5):
+        sc["env"]["queue_wait"] = "immediate"   # batches start together, so they also end together
     return sc
 
 
+profiles.profile("foreign_rounds_hooks", mode="hpc", fault_free=True, kind="world", gen=gen_foreign_rounds, max_jobs=8, min_jobs=2,
+                 p_hooks=0.7)
+profiles.PROFILE_PROPS["foreign_rounds_hooks"] = ["C16", "C05"]
 profiles.profile("foreign_rounds", mode="hpc", fault_free=True, kind="world", gen=gen_foreign_rounds, max_jobs=8, min_jobs=2)
 profiles.PROFILE_PROPS["foreign_rounds"] = ["C01", "C02", "C03", "C04", "C05", "C08", "C09"]
 profiles.CHECKS["C01"]["profiles"] = [("clean_hpc", 0.85), ("foreign_rounds", 0.15)]
@@ -150,3 +155,6 @@ profiles.CHECKS["C08"]["profiles"] = [("comp_results", 0.7), ("clean_hpc", 0.15)
 for _p in ("C01", "C03", "C05", "C08"):
     profiles.RULES[_p] += ("; plus the profile foreign_rounds (user rounds started right after job exits, status queries that take "
                            "tens of seconds, several small batches ending inside other rounds)")
+profiles.CHECKS["C16"]["profiles"] = [("clean_hpc_hooks", 0.4), ("clean_local_hooks", 0.25), ("resubmit_hooks", 0.15),
+                                      ("foreign_rounds_hooks", 0.2)]
+profiles.RULES["C16"] += "; plus foreign_rounds with lifecycle commands (several nodes completing at the same time)"
